@@ -104,6 +104,8 @@ class InvalidCase(Exception):
 
 
 class Impl:
+    strict = True      # C03 scope rule; set to False by the C01 / C02 checks
+
     def __init__(self, solver="glpk", nr=6, nm=6):
         import cobra
         self.cobra = cobra
@@ -131,7 +133,10 @@ class Impl:
         if len(self.model._contexts) > 0 and o[0] in self.EDITS:
             r = self.rx.get(o[1])
             if r is not None and r._model is not self.model and o[1] in self.block:
-                return False
+                # C01 / C02 still allow bounds edits on such an object (the solver must be in sync once the block
+                # re-adds it); stoichiometry edits would make the exit itself fail, which is C03's business
+                if self.strict or o[0] in ("AddSt", "SubSt", "Imul"):
+                    return False
         if o[0] in self.EDITS + ("AddRxn", "RemoveRxn", "SetObjCoef") and o[1] not in self.rx:
             return False
         if o[0] == "SetObj" and any(k not in self.rx for k, _ in o[1]):
@@ -390,7 +395,12 @@ def gen_history(rng, length, solver="glpk", ctx_p=0.12, max_depth=3, fail_p=0.15
         elif n == "AddRxn":
             c = [k for k in pending if k not in dead and
                  not any(int(m.id[1:]) in removed_m for m in im.rx[k]._metabolites)]
-            if c:
+            # outside contexts a reaction that was removed earlier may be added again (the same object, whose
+            # keys are the model's own - possibly removed - metabolite objects)
+            back_again = [k for k in removed_r if im.rx[k]._model is not M] if depth == 0 else []
+            if back_again and rng.random() < 0.5:
+                o = ["AddRxn", rng.choice(back_again)]
+            elif c:
                 o = ["AddRxn", rng.choice(c)]
             elif in_model_r() and rng.random() < 0.1:
                 o = ["AddRxn", rng.choice(in_model_r())]        # already there: ignored
@@ -551,6 +561,7 @@ def shrink(case, want):
 
 def main(prop, own_codes, gen_params, rule, manifest_trusted, argv=None):
     import json
+    Impl.strict = (prop == "C03")
     import random
     import time
     args = K.parse_args(argv)
